@@ -561,6 +561,30 @@ fn which(rng: &mut Rng) -> Which {
     *rng.pick(&[Which::Fq, Which::Fr, Which::Fp])
 }
 
+/// RNG plan for field samplers: a healthy stream, or one short fault window near the start.
+fn small_rng_plan(rng: &mut Rng) -> RngPlan {
+    let mut p = RngPlan {
+        seed: rng.next_u64(),
+        windows: vec![],
+        try_fill_fails: false,
+        try_fill_fails_after: None,
+    };
+    if rng.chance(1, 2) {
+        let fault = match rng.below(5) {
+            0 => RngFault::Ones,
+            1 => RngFault::Zero,
+            2 => RngFault::Stuck(rng.next_u64()),
+            3 => RngFault::Counter(u64::MAX - rng.below(4)),
+            _ => {
+                let l = *rng.pick(&[1usize, 2, 8]);
+                RngFault::Cycle(rng.bytes(l))
+            }
+        };
+        p.windows.push(RngWindow { start: rng.below(10), len: rng.range(1, 400), fault });
+    }
+    p
+}
+
 pub fn field_op(rng: &mut Rng, n: usize) -> FieldOp {
     let w = which(rng);
     let f = fld(w);
@@ -627,7 +651,19 @@ pub fn field_op(rng: &mut Rng, n: usize) -> FieldOp {
             };
             FSrc::Big(v.to_string())
         }
-        8 => FSrc::BigInt(hex(&f.to_le(&field_value(rng, f)))),
+        8 => match rng.below(4) {
+            0 => FSrc::RandWide(small_rng_plan(rng)),
+            1 => FSrc::SampleStd(small_rng_plan(rng)),
+            2 => {
+                // arbitrary limbs, often at or above the modulus
+                let mut b = if rng.chance(1, 2) { rng.bytes(f.nbytes) } else { f.to_le(&field_value(rng, f)) };
+                if rng.chance(1, 4) {
+                    b = vec![0xff; f.nbytes];
+                }
+                FSrc::FromBigIntReduce(hex(&b))
+            }
+            _ => FSrc::BigInt(hex(&f.to_le(&field_value(rng, f)))),
+        },
         9 => FSrc::Zero,
         10 => FSrc::One,
         11 => FSrc::Add(idx(rng, n), idx(rng, n)),
